@@ -439,7 +439,7 @@ _extend("C10",
     kernels=[("crosschunk", 1000, 20000)],
     open=["CrossChunk: link-following form of used_symbol_is_imported_and_exported (the routine never calls FollowSymbols; needs hypothesis `links`, checked by the driver on every observed build, never violated)",
           "CrossChunk.tail-declared hypothesis is FALSE on real code for `export var x=1; var x=2` with no in-module use (known finding c10-redeclared-exported-var-dropped)"],
-    scope="internal/linker/linker.go computeCrossChunkDependencies (per-part symbol-use resolution incl. unbound/missing/ImportsToBind/CJS-wrapper skip/namespace alias, ChunkIndex assignment, entry-point export table, exports/wrapper refs, entry-imports-all-its-chunks rule, dynamic-import chunk edges), sortedCrossChunkImports, sortedCrossChunkExportItems, internal/renamer/renamer.go ExportRenamer.NextRenamedName/NextMinifiedName, and the FormatESModule branch of generateEntryPointTailJS (which symbols the tail mentions/declares/exports) modelled (Impl/CrossChunk.lean) against ECMA-262 module linking at symbol level (Spec/CrossChunk.lean), tied through the cross-chunk observation hook on real builds",
+    scope="internal/linker/linker.go computeCrossChunkDependencies (per-part symbol-use resolution incl. unbound/missing/ImportsToBind/CJS-wrapper skip/namespace alias, ChunkIndex assignment, entry-point export table, exports/wrapper refs, entry-imports-all-its-chunks rule, dynamic-import chunk edges), sortedCrossChunkImports, sortedCrossChunkExportItems, internal/renamer/renamer.go ExportRenamer.NextRenamedName/NextMinifiedName, and the FormatESModule branch of generateEntryPointTailJS (which symbols the tail mentions/declares/exports) modelled (Impl/CrossChunk.lean) against ECMA-262 module linking at symbol level (Spec/CrossChunk.lean), tied through the cross-chunk observation hook on real builds; the per-use skip `Wrap == WrapCJS && ref != WrapperRef` is transcribed, not justified (the theorems are about what the routine's own resolution keeps; whether the skip is safe is decided by the run-time search); the generator contains require()d ES re-export barrels whose namespace-export part uses symbols of other chunks directly",
     assumptions=["crosschunk: the hook recovers rewritten import() records from record.Path.Text == chunk uniqueKey; DeclUnique and NonJSDeclareNothing (driver checks decl-unique / nonjs-chunk on every build); uint32 overflow of the rename counter ignored"])
 
 # exportmatch (C02): import/export matching against ECMA-262 ResolveExport
@@ -463,3 +463,47 @@ _extend("C05",
           "Lower3: array patterns (splitArrayPattern; known finding c05-array-rest-split-drains-iterator), member-expression targets, for-in/of heads, catch bindings, function parameters: not modelled"],
     scope="js_parser_lower.go lowerObjectSpread, lowerObjectRestInDecls, lowerAssign (objRestReturnValueIsUnused and objRestMustReturnInitExpr), lowerObjectRestToDecls, lowerObjectRestHelper (visit, lowerObjectRestPattern, splitObjectPattern, captureIntoRef), captureKeyForObjectRest; runtime.go __spreadValues, __spreadProps, __defNormalProp, __objRest, __restKey as JavaScript — modelled (Impl/Lower3.lean) over an object semantics with ordered string/symbol keys, accessors, prototypes and world events (Spec/ObjectOps.lean), validated against Node 20 by the objrestsem kernel",
     assumptions=["objrest: objects the program makes are referenced by nobody else while they are built; world objects are ordinary objects (no Proxy), every property read is an event; keys defined by literals are neither array indices nor names of Object.prototype properties; identifiers are declared variables and temporaries are fresh; the helpers see the built-ins captured when the file started; __defNormalProp's `key in obj` test collapsed into define"])
+
+# isohash (C18): the isolated hash of one chunk and the hashed name (held back until the model follows the mode-hash fix)
+_HELD("C18",
+    lean_modules=["EsbuildModel.Props.C18IsoHash"],
+    theorems=_thms("C18IsoHash", "isolated_hash_function_of_preimage preimage_is_tuple_encoding isolated_preimage_injective_partial isolated_covers_output "
+                   "output_change_changes_tuple name_is_function_of_hash name_shape name_determines_first_five_bytes name_panics_iff_empty"),
+    kernels=[("isohash", 15000, 400000)],
+    open=["C18IsoHash.isolated_preimage_injective (full, no shape hypotheses): FALSE of the code — the number of part ranges, of template parts and of pieces, and the presence of the public path and of the legal comments, are not written to the hash; four counterexample tuples are proved in Props/C18IsoHash.lean and replayed on the real routine by the kernel (stat collision-pair-*); no way to obtain equal NAMES with different contents through them was found; proved instead: isolated_preimage_injective_partial",
+          "C18IsoHash: what generateChunksInParallel appends AFTER hashing (sourceMappingURL comment, legal-comment link) depends on the --sourcemap / --legal-comments MODE, which is not hashed: known finding c18-sourcemap-mode-not-hashed"],
+    scope="internal/linker/linker.go generateIsolatedHash + generateIsolatedHashInParallel (every hash.Write in order: per part range namespace / pretty-or-key path / partIndexBegin / partIndexEnd for JS chunks only, finalTemplate Data, public path if non-empty, piece data or joiner bytes, source-map Prefix/Mappings/Suffix, external legal comments if non-empty; panic on a sourceIndex out of range), hashWriteUint32/hashWriteLengthPrefixed; internal/xxhash New/Reset, Digest.Write, writeBlocks, Sum64, Sum (the streaming XXH64 digest is part of the model: the kernel compares digests); internal/bundler/bundler.go HashForFileName (base32, [:8])",
+    assumptions=["isohash: SMShape (a source map is absent or its Prefix starts with '{' and its Mappings do not — true of generateSourceMapForChunk, which is not modelled); written lengths and part indices < 2^32; xxhash collision freedom (unchanged)"])
+
+# lineoffset (C07): byte offset -> (line, UTF-16 column), original and generated side
+_extend("C07",
+    lean_modules=["EsbuildModel.Props.C07LineOffset"],
+    theorems=_thms("C07LineOffset", "range_decoding_is_specified lookup_is_true_position lookup_inside_character offset_boundary_or_inside tables_wellformed "
+                   "panics_only_on_negative_inputs lookup_monotone generated_position update_generated_position generated_position_two_calls update_two_calls "
+                   "addSourceMapping_records_true_positions spec_decoder_characterised"),
+    kernels=[("lineoffset", 6000, 300000)],
+    scope="internal/sourcemap/sourcemap.go GenerateLineOffsetTables (whole body), the top of ChunkBuilder.AddSourceMapping (duplicate test, binary search over byteOffsetToStartOfLine, column from columnsForNonASCII or the byte difference), LineColumnOffset.AdvanceString / AdvanceBytes, ChunkBuilder.updateGeneratedLineAndColumn (line/column bookkeeping) and the position fields GenerateChunk reports — against Spec/TextPosition.lean (UTF-8 decoding with one U+FFFD per ill-formed byte, ECMA-262 line terminators, UTF-16 columns)",
+    assumptions=["lineoffset: contents shorter than 2^31 bytes; the ChunkBuilder has no input source map; mappings are added at character boundaries and never between CR and LF (the code does not handle a CR|LF split across two calls: examples in the Props file; no printer path that does so was found)"])
+
+# watchloop (C09): the polling loop of watch mode
+_extend("C09",
+    lean_modules=["EsbuildModel.Props.C09WatchLoop"],
+    theorems=_thms("C09WatchLoop", "reachable_inv poll_never_panics panic_only_outside_keys dirty_path_found_within_bound round_at_most_20 bound_le_39_at_loop_head "
+                   "bound_is_attained recent_items_asked_every_poll recent_dirty_found_at_once no_item_lost every_key_asked_once_per_round found_path_is_dirty "
+                   "clean_poll_asked_all recent_items_bounded recent_items_are_most_recent_hits loop_rebuilds_only_on_dirty loop_detects_within_bound loop_stops "
+                   "setWatchData_idem afterRebuild_eq transient_edit_window change_seen_by_watch_data_is_reported"),
+    kernels=[("watchloop", 3000, 60000)],
+    open=["WatchLoop: log messages, real time beyond the Sleep events, the mutex (each method is atomic) and --watch=forever (stdin handling in cmd/esbuild) are not modelled; a transient edit (undone before the path is looked at again, window up to 39 polls) is missed by design (theorem transient_edit_window)"],
+    scope="pkg/api/watcher.go, whole file: setWatchData; tryToFindDirtyPath (refill, itemsPerIteration = max(64, ceil(n/20)), the recent-items loop with move-to-back, the toCheck split, append and evict at 16); the start goroutine (shouldStop, 100 ms sleep, --watch-delay, rebuild + setWatchData, also when the rebuild callback calls setWatchData itself); stop. The map range order plus the math/rand shuffle are one nondeterministic permutation",
+    assumptions=["watchloop: methods are atomic (each holds w.mutex); fewer than 2^31 paths; the kernel compares by trace inclusion (the model is fed the refill order the real code produced and checks that it is a permutation); recent_items_are_most_recent_hits assumes predicate answers do not change during one poll"])
+
+# mangleprops (C15): property mangling name assignment
+_extend("C15",
+    lean_modules=["EsbuildModel.Props.C15MangleProps"],
+    theorems=_thms("MangleProps", "mangle_total mangle_consistent mangle_injective fresh_name_is_new cache_honoured cache_completed cacheInj_preserved "
+                   "less_strict_total_order mangle_deterministic_partial mangle_file_order_independent_partial cacheInj_needed tie_broken_by_file_order"),
+    kernels=[("mangleprops", 5000, 100000)],
+    open=["MangleProps.mangle_deterministic as a function of the multiset of (name, total count) and the cache only: FALSE of the code — ties on the count are broken by the stable index of the first reachable file that mentions the property, then by the parser's symbol index, not by name (theorem tie_broken_by_file_order); this is deterministic, not a nondeterminism. Proved instead: independence of Go map iteration order (mangle_deterministic_partial) and of file order when no two merged counts tie (mangle_file_order_independent_partial)",
+          "MangleProps: which names the parser makes candidates (isMangledProp / --mangle-props / --reserve-props / --mangle-quoted / @__KEY__) is a hypothesis (WF, Spec/MangleProps.lean), not modelled; separate links without a cache (known finding c15-mangle-props-differ-between-entry-points) are a remark: the theorems are about ONE mangleProps call"],
+    scope="internal/linker/linker.go mangleProps in full (reserved set from js_lexer.Keywords / cache targets / `false` keys / ReservedProps of reachable non-runtime JS files, merging of MangledProps by name, sort, name generation with the skip loop, cache read and write-back, nil cache), internal/ast/ast.go MergeSymbols, MergeContentsWith, FollowSymbols, CharFreq.Include, NameMinifier.ShuffleByCharFreq on DefaultNameMinifierJS, internal/renamer StableSymbolCountArray.Less, js_printer mangledPropName; NumberToMinifiedName reused from Impl/Rename.lean; tied through the verif export linker.VerifMangleProps on hand-built links",
+    assumptions=["mangleprops: Go maps are association lists traversed in list order (the Go side iterates in Go's random order, so every agreement also tests order independence); sort.Sort modelled by a stable insertion sort with the same comparator (equal when StableSourceIndices is injective); CharFreq is a fixed [64]int32; cyclic Symbol.Link chains are not generated; WF = what parser/bundler/api establish (one unlinked flag-free symbol of its own file per (file, candidate), each file reachable once, cache values string or false with unique keys)"])
